@@ -55,7 +55,7 @@ CHECKS = {
  "C04": dict(
    text="Coq: Table.Rowid on a table tree whose rowids ascend and whose interior keys bound their left subtrees is the lookup among the tree's rows - the stored record if "
         "present, 'not found' without error if absent - for every rowid in Z (hence all of int64), every depth the code accepts, with Go's sort.Search bisection modelled "
-        "exactly (C04_lookup, C04_descent). Every run: every present rowid (sample in quick), both neighbours, every interior separator key, first/last rowid of every leaf, "
+        "exactly (C04_lookup, C04_descent); the high level SelectRowid is that lookup with the row mapped (C04_select_rowid). Every run: every present rowid (sample in quick), both neighbours, every interior separator key, first/last rowid of every leaf, "
         "int64 min/max on SQLite-written trees of depth 1-3(4), through Table.Rowid, SelectRowid and PKSelect, against SQLite and against the extracted model.",
    note="Well-formedness of SQLite-written trees (sep_ok, sortedness) is SQLite's invariant; validated by the oracle comparison.",
    technique="Coq proof (from-key descent = lookup in the sorted flattening) + differential execution model vs Go vs SQLite",
